@@ -162,6 +162,7 @@ type stepShape struct {
 	freeBits bool // all presence bits chosen by Bool()
 	preset   int  // when !freeBits: 0 = everything present (maximal interaction), 1 = no components/actions/assets but subscribers, 2 = components but no subscribers
 	mods     int
+	symIDs   bool     // participant, entity and component-type ids start from arbitrary (symbolic) counters per session
 	rejoin   bool     // a0 was a member, had a switch refused and/or left for a session of its own, and joined again
 	flags    []string // feature flags of the world
 	par      *stepParams
@@ -210,6 +211,9 @@ func newStepWorld(sh stepShape) *stepWorld {
 	s.a0, s.a1, s.a2, s.b0, s.n0 = w.newConn(), w.newConn(), w.newConn(), w.newConn(), w.newConn()
 	d := w.newConn()
 	s.a0.mustJoin("")
+	if sh.symIDs {
+		symbolicCounters(s.a0)
+	}
 	s.a1.mustJoin(s.a0.sid)
 	if sh.rejoin {
 		// a0 has a switch to an unknown session refused, then leaves by switching to a session of its own,
@@ -234,6 +238,9 @@ func newStepWorld(sh stepShape) *stepWorld {
 	s.ePers = d.addEntity(true, par.posePers)
 	s.a2.mustJoin(s.a0.sid)
 	s.b0.mustJoin("")
+	if sh.symIDs {
+		symbolicCounters(s.b0) // independent of A's: the solver decides whether ids coincide across sessions
+	}
 	s.b0.addEntity(false, par.poseB) // session B re-uses the same numeric ids
 	s.ownPersist = par.ownPersist
 	op := par.poseOwn
@@ -518,4 +525,15 @@ func ridOf(m hwebsocket.Msg) (uint32, bool) {
 func (c *vConn) expectSubscribe(tid uint32) {
 	c.expectOne(&hagallpb.EntityComponentTypeSubscribeRequest{Type: hagallpb.MsgType_MSG_TYPE_ENTITY_COMPONENT_TYPE_SUBSCRIBE_REQUEST, Timestamp: vts(), RequestId: 9, EntityComponentTypeId: tid},
 		hagallpb.MsgType_MSG_TYPE_ENTITY_COMPONENT_TYPE_SUBSCRIBE_RESPONSE, "setup.subscribe")
+}
+
+// symbolicCounters moves the id counters of c's current session to arbitrary values (far from wrap-around), so
+// that every id issued afterwards is a symbolic term rather than 1, 2, 3.
+func symbolicCounters(c *vConn) {
+	sess := c.rh.CurrentSession()
+	for _, path := range []string{"participantIDs.currentID", "entityIDs.currentID", "entityComponents.ids.currentID"} {
+		base := verifnd.U32()
+		verifnd.Assume(verifnd.And(base >= 1, base < 0xFFFFFF00))
+		verifnd.PokeU32(sess, path, base)
+	}
 }
